@@ -46,7 +46,7 @@ PROBES = ["kind:p2pk", "kind:p2pkh", "kind:multisig", "kind:p2sh-multisig", "kin
           "sighash_direct_256", "codeseparator_script", "noncommitted_change_still_valid", "committed_change_invalidates",
           "revalidate_fresh_equal", "default_flags_verdict_checked", "inputs>=253", "spendable_form_text", "spendable_form_dict", "spendable_form_bin", "wire_big_inputs", "wire_big_outputs",
           "wire_big_out_script", "wire_big_in_script", "wire_big_witness_item", "wire_big_witness_count",
-          "oneshot_create_signed_tx", "oneshot_refused_missing_key", "check_solution_entry", "sighash_script_code>=253", "pass_over_short_signature", "solver_object_reused", "checker_object_reused", "validated_with_kept_context"]
+          "oneshot_create_signed_tx", "oneshot_refused_missing_key", "check_solution_entry", "sighash_script_code>=253", "pass_over_short_signature", "solver_object_reused", "checker_object_reused", "validated_with_kept_context", "validated_with_short_unspents_list"]
 # (wire_tx_* probes are fired by the wire_tx step, which only the S-WIRE planner emits; they are declared there)
 
 _STD = None
@@ -231,7 +231,8 @@ def gen_plan(rng, tier, index, config=None):
             steps.append({"op": "fork", "copy": cp, "dst": "c%d" % ncopies})
             ncopies += 1
         elif op == "validate":
-            steps.append({"op": "validate", "copy": cp, "how": r.pick(["each", "each", "count", "check_solution", "kept_context"])})
+            steps.append({"op": "validate", "copy": cp, "how": r.pick(["each", "each", "count", "check_solution", "kept_context"]),
+                          "short_unspents": r.pick([None, None, None, 0, 1, 2])})
         elif op == "tamper":
             forkcoin = sigkind in ("bch", "btg")
             kind = r.weighted([("version", 2), ("locktime", 2), ("outpoint", 2), ("sequence", 2), ("out_value", 3),
@@ -1157,6 +1158,22 @@ def _op_validate(ctx, W, st):
             if got != v.valid:
                 ctx.violate("C06", "standard-verdict-mismatch", {"input": j, "pycoin": got, "model": v.valid, "why": v.why, "kind": v.kind,
                                                                 "when": "kept checker and context", "signed": list(v.signed)})
+    # the list of recorded spent outputs is shorter than the list of inputs (an input was added, or the list was cut, without
+    # the other being brought along): the inputs beyond its end have no known spent output and are never valid
+    k_ = st.get("short_unspents")
+    if k_ is not None and 0 < len(cp.obj.unspents) and k_ < len(cp.obj.unspents) == len(cp.obj.txs_in):
+        full = cp.obj.unspents
+        k_ = max(1, k_) if len(full) > 1 else 0
+        if 0 < k_ < len(full):
+            cp.obj.unspents = full[:k_]
+            try:
+                ctx.probe("validated_with_short_unspents_list")
+                for j in range(k_, len(cp.obj.txs_in)):
+                    for fl in (flags, None):
+                        if _pyc_std(W, ctx, cp.obj, j, fl) is True:
+                            ctx.violate("C06", "valid-without-spent-output", {"input": j, "unspents": k_, "inputs": len(cp.obj.txs_in)})
+            finally:
+                cp.obj.unspents = full
     # unknown spent output => never valid
     for j, u in enumerate(cp.u):
         if u is None:
